@@ -8,14 +8,14 @@ DRIVER = "c19"
 PROPS_MODULE = "OxyModel.Props.C19"
 AUDIT = "OxyModel/Audit/C19.lean"
 THEOREMS = ["C19.C19_client_ip", "C19.C19_client_ip_general", "C19.C19_same_token_iff_same_address",
-            "C19.C19_host", "C19.C19_header", "C19.C19_header_value", "C19.C19_header_absent",
+            "C19.C19_host", "C19.C19_host_ignores_url", "C19.C19_header", "C19.C19_header_value", "C19.C19_header_absent",
             "C19.C19_amount_one", "C19.C19_unsupported_refused", "C19.C19_split_exact",
             "C19.C19_malformed_is_error"]
 RACE = False
 RULE = ("scenario = one NewExtractor variable (client.ip, request.host, request.header.<name>, or an unsupported/garbled one) "
         "followed by 10-60 forged requests: RemoteAddr = JoinHostPort of IPv4 / IPv6 / IPv6%zone peers with a decimal port, plus a "
         "malformed stream (no port, empty, only colons, empty host, unbalanced/misplaced brackets, extra colons, odd bytes, random "
-        "edits of valid addresses), Host strings, header lines with case variants, duplicates and invalid names; thorough additionally "
+        "edits of valid addresses), Host strings with req.URL.Host set independently (backend address behind a balancer, absolute-form authority, or absent), header lines with case variants, duplicates and invalid names; thorough additionally "
         "enumerates every RemoteAddr of length <= 6 over the alphabet {1 a : [ ] %}; non-trivial = at least two different outputs "
         "and at least one non-empty token")
 ASSUMPTIONS = [
@@ -144,6 +144,10 @@ def gen(rng, tier):
             if rng.random() < 0.8:
                 hst = rng.choice(["example.com", "Example.COM:8080", "", "[::1]:80", "a b", "h\x00", _ipv4(rng), "xn--bcher-kva.example"])
                 toks.append("host=" + esc(_b(hst)))
+            if rng.random() < 0.5:
+                # req.URL.Host varied independently of Host: a backend address (request seen behind a balancer), the same host, an absolute-form authority
+                uh = rng.choice(["10.1.1.1:8080", "backend-1.internal:9000", "[fd00::7]:8080", "example.com", "Example.COM:8080", _ipv4(rng) + ":80", "other.example"])
+                toks.append("urlhost=" + esc(_b(uh)))
             for _ in range(rng.choice([0, 0, 1, 1, 2, 3, 5])):
                 n = rng.choice(HNAMES)
                 if var.startswith("request.header.") and rng.random() < 0.5:
